@@ -199,7 +199,7 @@ def gen_cases(tier, seed):
                 yield _case(mode, st, [('cookie', 'ck', v), ('append', 'Vary', S('z'))])
     # D: seeded random sequences
     rnd = random.Random(seed * 7919 + 14)
-    for _ in range(3000 if not thorough else 60000):
+    for _ in range(12000 if not thorough else 150000):
         mode = rnd.choice(MODES)
         ents = _entries(mode)
         steps = []
